@@ -29,6 +29,11 @@ CLAIMED = {
   note="Trusted: Go type checker, go/ssa, the explorer; slice-origin classification is flow-insensitive (may-alias through append, phis and local cells).",
   technique="path-sensitive SSA ordering analysis + slice-origin (may-alias) classification + switch/registry exhaustiveness over the typed syntax tree, custom checker",
   ref="DESIGN.md section 4 C15"),
+ "C17": dict(
+  text="Static analysis: per path and per shard-mutex section of the eight engine functions (counter-writing helpers inlined), LockedCount moves iff the key depth moves and in the same direction, WaitCount++ pairs with AddWaitLock and WaitCount-- happens exactly once exactly where a queued request leaves the queue; reply count arguments originate from the manager's / hold's depth fields (42 reply sites); reference counts rise exactly for wheel insertions and ack registrations; every refCount decrement (23 sites) is followed by the zero test guarding FreeLock; RemoveLockManager clears the value and decrements KeyCount once. Magnitudes and drain-to-zero are runtime quantities and are not decided, hence 'other'.",
+  note="Trusted: Go type checker, go/ssa, the explorer; tabled exceptions in internal/rules/c17.go (RemoveLock / RemoveLong* hand their zero test to callers; cancelWaitLock's unreachable holder arm).",
+  technique="path-sensitive SSA effect pairing (counter/depth co-movement, reference-count balance, must-follow zero test) + value-origin typing of reply arguments, custom checker",
+  ref="DESIGN.md section 4 C17"),
 }
 
 NA = {
